@@ -257,7 +257,15 @@ pub fn run_bus_history(args: &Args) -> Result<()> {
                     for _ in 0..len {
                         match rng.below(6) {
                             0 | 1 => h.bw(mirror_addr(&mut rng), [0u8, 1, 2, 3, 0x49, 0xff, 0x0f][rng.below(7) as usize])?,
-                            2 => h.tick([8u8, 64, 200, 255][rng.below(4) as usize])?,
+                            2 => {
+                                if rng.chance(1, 3) {
+                                    // a pin report for a port that does not exist changes nothing, wherever it would land
+                                    h.pin([0u8, 12, 13, 16, 200, 255][rng.below(6) as usize], rng.u8())?;
+                                    h.br([0xffffdbu64, 0xfee00b, 0xffffcf, 0xffffdc][rng.below(4) as usize])?
+                                } else {
+                                    h.tick([8u8, 64, 200, 255][rng.below(4) as usize])?
+                                }
+                            }
                             3 => h.br([0xffff88u64, 0xffff82, 0xffff80, 0xffffd0, 0xffffd3, 0xffffda][rng.below(6) as usize])?,
                             _ => h.br(mirror_addr(&mut rng))?,
                         }
